@@ -189,6 +189,10 @@ func renderXML(items []xmlItem, st *xmlStyle) string {
 
 // encode transcodes UTF-8 text into the declared 8-bit encoding; characters it cannot
 // represent are written as character references (they only occur in text and attribute values)
+// encodings whose bytes A0..FF are the code points U+00A0..U+00FF; for every other declared encoding (all of them ASCII
+// compatible) only ASCII bytes are written and the rest goes into character references
+var latin1Family = map[string]bool{"ISO-8859-1": true, "windows-1252": true, "iso-8859-1": true, "latin1": true}
+
 func encodeXML(text, enc string) ([]byte, bool) {
 	if enc == "" || enc == "UTF-8" {
 		return []byte(text), true
@@ -198,7 +202,7 @@ func encodeXML(text, enc string) ([]byte, bool) {
 		switch {
 		case r < 0x80:
 			out = append(out, byte(r))
-		case enc != "US-ASCII" && r >= 0xA0 && r <= 0xFF:
+		case latin1Family[enc] && r >= 0xA0 && r <= 0xFF:
 			out = append(out, byte(r))
 		default:
 			out = append(out, []byte(fmt.Sprintf("&#x%X;", r))...)
@@ -253,7 +257,7 @@ func xmlCase(line string, rep *Report, fnd *Findings) {
 	styles := []*xmlStyle{
 		{rng: rand.New(rand.NewSource(seed))},
 		{rng: rand.New(rand.NewSource(seed + 1)), decl: true, encoding: "UTF-8", rename: map[string]string{"p": "q", "q": "p"}, order: 1},
-		{rng: rand.New(rand.NewSource(seed + 2)), decl: true, encoding: []string{"ISO-8859-1", "windows-1252", "US-ASCII", "iso-8859-1", "latin1"}[int(seed%5+5)%5], rename: map[string]string{"p": "ns-1", "q": "_x.y"}},
+		{rng: rand.New(rand.NewSource(seed + 2)), decl: true, encoding: []string{"ISO-8859-1", "windows-1252", "US-ASCII", "iso-8859-1", "latin1", "TIS-620", "windows-874", "KOI8-R", "IBM866", "ISO-8859-5", "EUC-KR", "macintosh", "ISO-8859-11"}[int(seed%13+13)%13], rename: map[string]string{"p": "ns-1", "q": "_x.y"}},
 		{rng: rand.New(rand.NewSource(seed + 3)), decl: true, order: 2},
 	}
 	var plain string
